@@ -291,6 +291,20 @@ fn read_entry_case(out: &mut Out, val: &Option<Vec<u8>>) {
         |se| show(&se.attrs, &se.bin_attrs),
     );
     out.r("readentry = construct . parse_tag", real == composed, &format!("{} vs {}", real, composed));
+    // the whole parser against the composed model `parseReadEntryResp` (C19_readEntry_resp)
+    let show_map = |pairs: Vec<(&[u8], Vec<String>)>| {
+        let mut ks = pairs;
+        ks.sort_by(|a, b| a.0.cmp(b.0));
+        let items: Vec<String> = ks.iter().map(|(k, vs)| format!("{}:[{}]", hex(k), vs.join(","))).collect();
+        format!("{{{}}}", items.join(";"))
+    };
+    let v = val.clone();
+    let full = parse_outcome(move || rc_of(v).parse::<ReadEntryResp>(), |r| {
+        let t = show_map(r.attrs.iter().map(|(k, vs)| (k.as_bytes(), vs.iter().map(|x| hex(x.as_bytes())).collect())).collect());
+        let b = show_map(r.bin_attrs.iter().map(|(k, vs)| (k.as_bytes(), vs.iter().map(|x| hex(x)).collect())).collect());
+        format!("ok text={} bin={}", t, b)
+    });
+    out.m(&format!("ctl.parse readentryresp {}", h), &full);
 }
 
 fn syncinfo_msg(with_name: bool, name: &[u8], val: Vec<u8>) -> StructureTag {
